@@ -309,7 +309,7 @@ func (cr *CheckRun) CheckCorpusCompiles(corpusDir string) {
 
 
 func needsUserCode(msg string) bool {
-	return strings.Contains(msg, "is not in std") || strings.Contains(msg, "cannot find module") || strings.Contains(msg, "no required module provides")
+	return strings.Contains(msg, "is not in std") || strings.Contains(msg, "cannot find module") || strings.Contains(msg, "no required module provides") || strings.Contains(msg, "could not import")
 }
 
 // triageBounded: bounded-part failures are matched against known findings by name only.
